@@ -333,6 +333,9 @@ func jcsReplay(args []string) {
 					}
 				}()
 
+				// (a text that is refused half-way goes first: what it leaves behind must not reach the next call)
+				jcsDisturb(int(spellings))
+
 				out, err = canonicalizer.MarshalCanonical([]byte(in))
 			}()
 
@@ -555,6 +558,8 @@ func jcsTrace(args []string) {
 
 			var e error
 
+			jcsDisturb(len(in))
+
 			out, e = canonicalizer.MarshalCanonical([]byte(in))
 			if e != nil {
 				bad = "error: " + e.Error()
@@ -563,6 +568,16 @@ func jcsTrace(args []string) {
 
 		_ = enc.Encode(map[string]interface{}{"event": "Canon", "v": v, "out": utf8ToCps(out), "bad": bad})
 	}
+}
+
+// texts that the canonicalizer refuses after it has read part of them
+var jcsRefused = []string{`{"stale":1,"x":}`, `[1,2,`, `{"a":{"b":[1,{"c":2},`, `{"k":"v" "k2":1}`, `{"s":"unterminated`, `{"dup":1,"dup":2}`, `[1e400]`,
+	`{"deep":[[[[{"x":1,"y":[2,3,{"z":`, "{\"esc\":\"\\u12\"}", `{"a":1}{"b":2}`, `{"a":tru}`}
+
+func jcsDisturb(i int) {
+	defer func() { _ = recover() }()
+
+	_, _ = canonicalizer.MarshalCanonical([]byte(jcsRefused[i%len(jcsRefused)]))
 }
 
 func randomJVNumber(r *rand.Rand) JV {
